@@ -78,7 +78,7 @@ Proof.
   intros HI. unfold t1_attempt. unpack. rewrite Hwr. cbn [negb]. replace (l_cap L <? len d) with false by lia.
   assert (Hl : len m1 = len m) by (destruct HI as ([E _] & _); unfold lenok in E; unfold len; congruence).
   rewrite Hl. pose proof (h_att m1 F c kf f HI) as A.
-  destruct (run_attempt u (len m) m1 F c (t1_phases L d) kf f) as [[r [[T2 F2] c2']] ex].
+  destruct (run_attempt u (len m) (fun x => x) m1 F c (t1_phases L d) kf f) as [[r [[T2 F2] c2']] ex].
   destruct A as (A1 & A2 & A3 & A4 & A5 & A6).
   split; [exact A1|]. split; [exact A3|]. split; [intro i; apply h_class, A2|]. split; [|exact A6].
   intro Hrok. unfold t1_fresh, t1_capacity. rewrite (A4 Hrok).
